@@ -629,6 +629,13 @@ def drive : List String → Option String
     let pl ← parsePayloads payloads
     pure (match readInstalled .fixed cfg, pl with
       | .error _, some (_ :: _) => "violation update-into-unreadable-configuration"
+      | .ok inst, some pl =>
+        -- a policy-statement the reader SKIPS (no trailing reject) is treated as not installed; an
+        -- update merged into it leaves whatever its accepting terms hold in place
+        let skipped := (keys cfg).filter fun n => (alGet n inst).isNone
+        (match mapM? parsePatch pl with
+         | some ps => if ps.any (fun p => !p.del && skipped.contains p.name) then "violation update-into-skipped-policy" else "ok"
+         | none => "ok")
       | _, _ => "ok")
   | _ => none
 
